@@ -39,6 +39,16 @@ def cf_case(draw):
     if draw(st.sampled_from([False, False, False, True])):
         kind = draw(st.sampled_from(["dd"] + c["present"]))
         c[kind]["counts"] = (np.array(c[kind]["counts"]) * 0).tolist()
+    if draw(st.sampled_from([False, False, True])):
+        # signed contents (negative object weights give negative pair counts): flip the sign of whole
+        # patch pairs and of single entries, so that pairs without any positive entry occur
+        kind = draw(st.sampled_from(["dd"] + c["present"]))
+        arr = np.array(c[kind]["counts"], float)
+        npatch = arr.shape[1]
+        pair_sign = np.array(draw(st.lists(st.sampled_from([1.0, 1.0, -1.0]), min_size=npatch * npatch, max_size=npatch * npatch))).reshape(npatch, npatch)
+        arr = arr * pair_sign[None, :, :]
+        c[kind]["counts"] = arr.tolist()
+        c["signed"] = True
     return c
 
 
@@ -62,7 +72,7 @@ def run_cf(case):
 
     present = case["present"]
     zero_pairs = any((np.array(case[k]["counts"]).sum(axis=0) == 0).any() for k in ["dd"] + present)
-    ck = Checker(len(present) < 3 or zero_pairs, classes=["members:" + "+".join(present), "auto" if case["auto"] else "cross"])
+    ck = Checker(len(present) < 3 or zero_pairs, classes=["members:" + "+".join(present), "auto" if case["auto"] else "cross"] + (["signed-counts"] if case.get("signed") else []))
     cf = gen.build_corrfunc(case)
     with Scratch() as tmp:
         path = tmp / "cf.hdf5"
